@@ -25,22 +25,44 @@ func c20Run(ci any) Result {
 	var cur rObs
 	e := echo.New()
 	e.Logger.SetOutput(nopWriter{})
+	// Two ways of naming a route: an explicit Route.Name (looked up with Echo.Reverse), or the default name, which is
+	// the handler function's name (looked up with Echo.URI / Echo.URL; the handlers are distinct top-level functions
+	// then, so that the names are unique).
+	byHandler := len(c.Routes) <= len(c20Handlers) && (c.Idx+len(c.Routes)+len(c.Args))%2 == 0
+	name := func(i int) string { return fmt.Sprintf("route-%d", i) }
 	for i, r := range c.Routes {
 		i := i
-		rt := e.Add(r.Method, r.Path, func(ctx echo.Context) error {
-			cur.Kind = 'D'
-			cur.Hid = i
-			cur.PPath = ctx.Path()
-			cur.Names = append([]string{}, ctx.ParamNames()...)
-			cur.Values = append([]string{}, ctx.ParamValues()...)
-			return ctx.NoContent(http.StatusOK)
-		})
-		rt.Name = fmt.Sprintf("route-%d", i) // unique names: Reverse picks an arbitrary route among equal names
+		if byHandler {
+			e.Add(r.Method, r.Path, c20Handlers[i])
+		} else {
+			rt := e.Add(r.Method, r.Path, func(ctx echo.Context) error {
+				cur.Kind = 'D'
+				cur.Hid = i
+				cur.PPath = ctx.Path()
+				cur.Names = append([]string{}, ctx.ParamNames()...)
+				cur.Values = append([]string{}, ctx.ParamValues()...)
+				return ctx.NoContent(http.StatusOK)
+			})
+			rt.Name = name(i) // unique names: Reverse picks an arbitrary route among equal names
+		}
 		if c.Warm > 0 && i == c.Warm-1 {
 			// reverse routing is used before the rest of the application is registered
-			e.Reverse("route-0", "w1", "w2", "w3")
-			e.Reverse(fmt.Sprintf("route-%d", c.Idx), "w1")
+			if byHandler {
+				e.URI(c20Handlers[0], "w1", "w2", "w3")
+				e.URL(c20Handlers[c.Idx], "w1")
+			} else {
+				e.Reverse(name(0), "w1", "w2", "w3")
+				e.Reverse(name(c.Idx), "w1")
+			}
 		}
+	}
+	if byHandler {
+		e.Use(func(next echo.HandlerFunc) echo.HandlerFunc {
+			return func(ctx echo.Context) error {
+				ctx.Set("c20cur", &cur)
+				return next(ctx)
+			}
+		})
 	}
 	e.Use(func(next echo.HandlerFunc) echo.HandlerFunc {
 		return func(ctx echo.Context) error {
@@ -53,7 +75,19 @@ func c20Run(ci any) Result {
 	for i, a := range c.Args {
 		args[i] = a
 	}
-	url := e.Reverse(fmt.Sprintf("route-%d", c.Idx), args...)
+	var url string
+	entryMismatch := ""
+	if byHandler {
+		url = e.URI(c20Handlers[c.Idx], args...)
+		if u2 := e.URL(c20Handlers[c.Idx], args...); u2 != url {
+			entryMismatch = fmt.Sprintf("Echo.URL gives %q, Echo.URI gives %q", u2, url)
+		}
+	} else {
+		url = e.Reverse(name(c.Idx), args...)
+		if u2 := e.Router().Reverse(name(c.Idx), args...); u2 != url {
+			entryMismatch = fmt.Sprintf("Router.Reverse gives %q, Echo.Reverse gives %q", u2, url)
+		}
+	}
 	rt := c.Routes[c.Idx]
 	rServeRec(e, &cur, rReq{Method: rt.Method, Path: url})
 	res := Result{
@@ -62,6 +96,14 @@ func c20Run(ci any) Result {
 	}
 	toks, names, after := rNorm(rt.Path)
 	tags := []string{}
+	if byHandler {
+		tags = append(tags, "named-by-handler(URI/URL)")
+	} else {
+		tags = append(tags, "named-explicitly(Reverse)")
+	}
+	if entryMismatch != "" {
+		res.Oracle = entryMismatch
+	}
 	if c.Warm > 0 && c.Warm < len(c.Routes) {
 		tags = append(tags, "reverse-before-later-registrations")
 	}
@@ -87,7 +129,8 @@ func c20Run(ci any) Result {
 		}
 		// the URL is the pattern with the values substituted (escaped colons come out as literal colons)
 		want, _ := rInst(toks, c.Args)
-		if url != want {
+		if res.Oracle != "" {
+		} else if url != want {
 			res.Oracle = fmt.Sprintf("Reverse(%q, %q) = %q, want %q", rt.Path, c.Args, url, want)
 		} else if !rColonClash(c.Routes) {
 			switch {
@@ -108,6 +151,27 @@ func c20Run(ci any) Result {
 	res.Tags = tags
 	return res
 }
+
+// c20Handlers: distinct top-level functions, so that the default route names (the handler's function name) differ.
+var c20Handlers = []echo.HandlerFunc{c20H0, c20H1, c20H2, c20H3, c20H4, c20H5, c20H6, c20H7}
+
+func c20Record(ctx echo.Context, i int) error {
+	cur := ctx.Get("c20cur").(*rObs)
+	cur.Kind = 'D'
+	cur.Hid = i
+	cur.PPath = ctx.Path()
+	cur.Names = append([]string{}, ctx.ParamNames()...)
+	cur.Values = append([]string{}, ctx.ParamValues()...)
+	return ctx.NoContent(http.StatusOK)
+}
+func c20H0(ctx echo.Context) error { return c20Record(ctx, 0) }
+func c20H1(ctx echo.Context) error { return c20Record(ctx, 1) }
+func c20H2(ctx echo.Context) error { return c20Record(ctx, 2) }
+func c20H3(ctx echo.Context) error { return c20Record(ctx, 3) }
+func c20H4(ctx echo.Context) error { return c20Record(ctx, 4) }
+func c20H5(ctx echo.Context) error { return c20Record(ctx, 5) }
+func c20H6(ctx echo.Context) error { return c20Record(ctx, 6) }
+func c20H7(ctx echo.Context) error { return c20Record(ctx, 7) }
 
 func rServeRec(e *echo.Echo, cur *rObs, q rReq) {
 	*cur = rObs{}
